@@ -108,6 +108,8 @@ func c18Src(name string, n *c18node) string {
 			s += fmt.Sprintf(" (defn Get_%s [] %s) (defn Set_%s [nv] (set %s nv))", c18Ident(k), k, c18Ident(k), k)
 		}
 	}
+	// inside code that is handed its argument by the caller
+	s += " (defn Ident9 [x9] (+ x9 0))"
 	return s + "))"
 }
 
@@ -168,14 +170,14 @@ func init() {
 	core.Register(&core.Prop{
 		ID:    "C18",
 		Level: "exploration",
-		Rule: "random package trees (packages nested to depth 3, value / function / hash members with nested hashes, names with upper-case, lower-case, underscore and non-ASCII first runes), reached through the package, an alias of it, an alias of an inner package and a hash holding the package. Every member path is accessed from outside by a read route (operand of a builtin, right-hand side of def and let, argument, infix operand, call through the path for functions) and every value member directly under a package by the write routes (set p.x v) and {p.x = v}, verified through a capitalised getter defined inside the package; generic accessors (hget in all its spellings, hpair) handed the package value itself must never return a private member's canary; inside code (public getter/setter) must keep full access to private members when called from outside. " +
+		Rule: "random package trees (packages nested to depth 3, value / function / hash members with nested hashes, names with upper-case, lower-case, underscore and non-ASCII first runes), reached through the package, an alias of it, an alias of an inner package and a hash holding the package. Every member path is accessed from outside by a read route (operand of a builtin, right-hand side of def and let, argument, infix operand, call through the path for functions) and every value member directly under a package by the write routes (set p.x v) and {p.x = v}, verified through a capitalised getter defined inside the package; every value path is also handed as the caller's argument to a function defined inside a package ((P.Sub.Ident9 P.Sub.x)); the private members of an enclosing package are named through each nested package that does not define them (P.Inner.secret: read, def, set, infix assignment, call, hash descent); generic accessors (hget in all its spellings, hpair) handed the package value itself must never return a private member's canary; inside code (public getter/setter) must keep full access to private members when called from outside. " +
 			"Oracle: visibility model over the tree (capitalisation decides at the last hop and before entering a hash; nested packages traversable under any case; keys inside a reachable hash are not members): allowed => the member's unique canary integer is returned / the write takes effect; forbidden => an error, the canary never appears and the value is unchanged. non-trivial = distinct tree with >=1 nested package, >=1 hash member and both an allowed and a forbidden path",
 		Assumptions: []string{
 			"dot-symbols self-evaluate until used as an operand, so a path is always observed through a consuming route",
 		},
 		NCases:  func(c *core.Ctx) int { return thorN(c, 400, 8000) },
 		Chunk:   40,
-		MustSee: []string{"reads_allowed", "reads_forbidden", "writes_allowed", "writes_forbidden", "inside_code_accesses", "calls_through_path"},
+		MustSee: []string{"reads_allowed", "reads_forbidden", "writes_allowed", "writes_forbidden", "inside_code_accesses", "calls_through_path", "paths_as_arguments_of_inside_functions", "outer_private_through_nested_package"},
 		Run:     c18Run,
 	})
 }
@@ -265,6 +267,104 @@ func c18Run(c *core.Ctx, i int) *core.Result {
 				return res
 			}
 		}
+	}
+	// a path handed as the argument of a function defined inside a package (the one holding the member,
+	// or the root): the argument is the caller's expression, so the caller's visibility applies
+	for _, p := range paths {
+		if p.leaf.kind != "val" {
+			continue
+		}
+		node, depth := tree, 0
+		for depth < len(p.parts)-1 && node.kids[p.parts[depth]].kind == "pkg" {
+			node = node.kids[p.parts[depth]]
+			depth++
+		}
+		root := roots[g.r.N(len(roots))]
+		holder := root
+		if depth > 0 && g.r.N(3) != 0 {
+			holder += "." + strings.Join(p.parts[:depth], ".")
+		}
+		dot := roots[g.r.N(len(roots))] + "." + strings.Join(p.parts, ".")
+		text := fmt.Sprintf("(%s.Ident9 %s)", holder, dot)
+		canary := strconv.Itoa(p.leaf.val)
+		o := s.Eval(text+"\n", 0)
+		res.Evals++
+		res.Ev("paths_as_arguments_of_inside_functions", 1)
+		if o.Panic != "" {
+			res.Violate("escaped-panic:"+o.Site, o.Panic, setup+text)
+			return res
+		}
+		got := OutStr(o)
+		if p.allow && got != canary {
+			res.Violate("public-member-unreachable:argument-of-inside-function", fmt.Sprintf("%s passes a public member to the package's own function and must give %s, got %s", text, canary, got), setup+text)
+			return res
+		}
+		if !p.allow && (o.Err == nil || strings.Contains(got, canary)) {
+			res.Violate("private-member-read:argument-of-inside-function", fmt.Sprintf("%s names a private member (canary %s) in the caller's argument and must fail, got %s", text, canary, got), setup+text)
+			return res
+		}
+	}
+	// an outer package's private members named through a nested package (P.Inner.secret where secret
+	// belongs to P, not to Inner): never readable, never writable
+	var outer func(n *c18node, prefix []string) bool
+	outer = func(n *c18node, prefix []string) bool {
+		for _, y := range n.ord {
+			if n.kids[y].kind != "pkg" {
+				continue
+			}
+			for _, m := range n.ord {
+				c := n.kids[m]
+				if c18Upper(m) || n.kids[y].kids[m] != nil || c.kind == "pkg" {
+					continue
+				}
+				root := roots[g.r.N(len(roots))]
+				base := root + "." + strings.Join(append(append([]string{}, prefix...), y, m), ".")
+				var texts []string
+				canary := strconv.Itoa(c.val)
+				switch c.kind {
+				case "val":
+					texts = []string{"(+ 0 " + base + ")", "(def stolen9 " + base + ")", "(set " + base + " 999)", "{" + base + " = 999}"}
+				case "fn":
+					texts = []string{"(+ 0 (" + base + "))"}
+				case "hash":
+					first := c.ord[0]
+					if c.kids[first].kind != "val" {
+						continue
+					}
+					canary = strconv.Itoa(c.kids[first].val)
+					texts = []string{"(+ 0 " + base + "." + first + ")", "(begin (def th9 " + base + ") (hget th9 " + first + ":))"}
+				}
+				for _, text := range texts {
+					w := NewSutRun(true)
+					w.Eval(setup, 0)
+					o := w.Eval(text+"\n", 0)
+					res.Evals++
+					res.Ev("outer_private_through_nested_package", 1)
+					if o.Panic != "" {
+						res.Violate("escaped-panic:"+o.Site, o.Panic, setup+text)
+						return false
+					}
+					if got := OutStr(o); o.Err == nil || strings.Contains(got, canary) {
+						res.Violate("private-member-read:outer-member-through-nested-package", fmt.Sprintf("%s names the private member %s of the enclosing package through the nested package %s and must fail, got %s", text, m, y, got), setup+text)
+						return false
+					}
+					if c.kind == "val" {
+						getter := "(" + strings.Join(append(append([]string{"P"}, prefix...), "Get_"+c18Ident(m)), ".") + ")"
+						if now := OutStr(w.Eval(getter+"\n", 0)); now != canary {
+							res.Violate("private-member-written:outer-member-through-nested-package", fmt.Sprintf("after %s the inside getter %s gives %s, the member was %s", text, getter, now, canary), setup+text)
+							return false
+						}
+					}
+				}
+			}
+			if !outer(n.kids[y], append(append([]string{}, prefix...), y)) {
+				return false
+			}
+		}
+		return true
+	}
+	if !outer(tree, nil) {
+		return res
 	}
 	// generic accessors handed the package value itself (not a dot path, so they are free to fail;
 	// what they must never do is hand out a private member's value)
